@@ -56,7 +56,9 @@ def gen_and_prove(ctx, gen_entries, props_files, sub):
         for name, fn in gen_entries:
             try:
                 texts[name] = fn()
-                ctx.gen(name, texts[name])
+                path = os.path.join(vlib.COQ, "Gen", name + ".v")
+                if not (os.path.exists(path) and open(path).read() == texts[name]):
+                    ctx.gen(name, texts[name])          # takes the build lock; skipped when nothing changed
             except Exception as e:  # translator is fail-closed
                 ok_gen = False
                 ctx.broken("translator", name, repr(e))
